@@ -40,5 +40,9 @@ FosPairs  == {<<[path |-> <<NF("a")>>, pol |-> p1], [path |-> <<NF("a"), NF("b")
 FosAll    == FosSingle \cup FosPairs
 FosIdx    == FosOf({<<NF("a"), IX(1)>>, <<NF("a"), IX(0)>>, <<NF("a"), IX(1), IX(0)>>})
              \cup {<<[path |-> <<NF("a"), IX(1)>>, pol |-> p1], [path |-> <<NF("a"), NF("b")>>, pol |-> p2]>> : p1, p2 \in FPols}
+             \* a policy for the LIST itself and another one for a path through one of its indices (the policy node of
+             \* a then carries its own handling AND indexed entries)
+             \cup {<<[path |-> <<NF("a")>>, pol |-> p1], [path |-> q, pol |-> p2]>> :
+                      p1, p2 \in FPols, q \in {<<NF("a"), IX(1)>>, <<NF("a"), IX(1), IX(0)>>, <<NF("a"), IX(1), NF("b")>>}}
 PolsTwo   == {"default", "append"}
 ==========================================================================
